@@ -68,6 +68,36 @@ Definition grid_neighbors (H W p : nat) : list nat :=
   ++ (if (c + 1 <? W)%nat then [(p + 1)%nat] else []) ++ (if (r + 1 <? H)%nat then [(p + W)%nat] else []).
 Definition grid_rows (H W : nat) : list (list nat) := map (grid_neighbors H W) (seq 0 (H * W)).
 
+(* ---------------- Mesh2DDelaunay.neighbors ----------------
+     indptr, indices = self.delaunay.vertex_neighbor_vertices
+     sizes = indptr[1:] - indptr[:-1]
+     neighbors = -1 * ones((parameters, max(sizes)));  for k: neighbors[k][0:sizes[k]] = indices[indptr[k]:indptr[k+1]]
+   scipy's contract for vertex_neighbor_vertices ("the indices of neighbouring vertices of vertex k are
+   indices[indptr[k]:indptr[k+1]]"): the slice of k lists, once each, the vertices that share a simplex with k. *)
+Definition vslice (indices : list nat) (a b : nat) : list nat := firstn (b - a) (skipn a indices).
+Definition del_sizes (indptr : list nat) : list nat := map (fun ab => (snd ab - fst ab)%nat) (combine indptr (tl indptr)).
+Definition del_rows (params : nat) (indptr indices : list nat) : list (list nat) :=
+  map (fun k => vslice indices (nth k indptr 0%nat) (nth (S k) indptr 0%nat)) (seq 0 params).
+Definition del_neighbors (params : nat) (indptr indices : list nat) : list (list Z) * list nat :=
+  let sizes := del_sizes indptr in
+  let w := fold_right Nat.max 0%nat sizes in
+  (map (fun r => map Z.of_nat r ++ repeat (-1)%Z (w - length r)) (del_rows params indptr indices), sizes).
+(* specification: the edges of the triangulation *)
+Definition memb (i : nat) (l : list nat) : bool := existsb (Nat.eqb i) l.
+Definition adjb (simplices : list (list nat)) (i j : nat) : bool :=
+  negb (Nat.eqb i j) && existsb (fun s => memb i s && memb j s) simplices.
+Fixpoint nodupn (l : list nat) : bool :=
+  match l with [] => true | a :: t => negb (memb a t) && nodupn t end.
+Fixpoint nondecreasing (l : list nat) : bool :=
+  match l with a :: ((b :: _) as t) => (a <=? b)%nat && nondecreasing t | _ => true end.
+(* the contract of scipy.spatial.Delaunay.vertex_neighbor_vertices for n points with the given simplices *)
+Definition vnv_ok (n : nat) (simplices : list (list nat)) (indptr indices : list nat) : bool :=
+  Nat.eqb (length indptr) (S n) && nondecreasing indptr && (last indptr 0 <=? length indices)%nat
+  && forallb (forallb (fun v => (v <? n)%nat)) simplices
+  && forallb (fun k => let row := vslice indices (nth k indptr 0%nat) (nth (S k) indptr 0%nat) in
+                       nodupn row && forallb (fun j => adjb simplices k j) row
+                       && forallb (fun j => implb (adjb simplices k j) (memb j row)) (seq 0 n)) (seq 0 n).
+
 Section Model.
   Context {O : NumOps}.
   Notation T := (T O).
@@ -205,6 +235,61 @@ Section Model.
   Definition scale_matrix (c : T) (K : mat) : mat := map (map (mul O c)) K.
   Definition mat_vec (M : mat) (x : list T) : list T := map (fun r => dot r x) M.
 
+  (* ---------------- mapper_util.adaptive_pixel_signals_from ----------------
+     pixel_signals = zeros(pixels); pixel_sizes = zeros(pixels)
+     for sub: vi = pix_indexes[sub]; d = adapt_data[slim[sub]]; size = pix_size[sub]
+        if size > 1: pixel_signals[vi[:size]] += d * pixel_weights[sub]; pixel_sizes[vi] += 1
+        else:        pixel_signals[vi[0]] += d;                           pixel_sizes[vi[0]] += 1
+     pixel_sizes[pixel_sizes == 0] = 1; pixel_signals /= pixel_sizes; pixel_signals /= max(pixel_signals)
+     return pixel_signals ** signal_scale
+     numpy's  a[idx] += v  with an index ARRAY is  a[idx] = a[idx] + v : every read sees the old array, the writes
+     happen in order (the last one wins on a repeated index) -- [fancy_add]; with a scalar index it is [upd_add]. *)
+  Definition fancy_add (a : list T) (ivs : list (nat * T)) : list T :=
+    fold_left (fun acc iv => upd_set acc (fst iv) (add O (nthT a (fst iv)) (snd iv))) ivs a.
+  Definition sig_row := (list Z * nat * list T * nat)%type.   (* pix_indexes row, pix_size, pixel_weights row, slim index *)
+  (* the vertex indexes a row really uses (negative indexes wrap, as numpy does) and the values added to them *)
+  Definition sig_prep (pixels : nat) (adapt : list T) (r : sig_row) : res (list nat * list T) :=
+    let '(row, size, wrow, slim) := r in
+    if (length adapt <=? slim)%nat then Raise IndexError else
+    let d := nthT adapt slim in
+    if (1 <? size)%nat then
+      if negb (Nat.eqb size (length row) && Nat.eqb size (length wrow)) then Raise OtherException   (* ValueError: operands could not be broadcast *)
+      else match all_some (map (pyidx pixels) row) with
+           | Some idx => Ok (idx, map (mul O d) wrow)
+           | None => Raise IndexError end
+    else match row with
+         | [] => Raise IndexError
+         | z :: _ => match pyidx pixels z with Some i => Ok ([i], [d]) | None => Raise IndexError end
+         end.
+  Definition sig_step (st : list T * list T) (pr : list nat * list T) : list T * list T :=
+    (fancy_add (fst st) (combine (fst pr) (snd pr)), fancy_add (snd st) (map (fun i => (i, one)) (fst pr))).
+  Definition fix_sizes (cnt : list T) : list T := map (fun c => if eqb O c zero then one else c) cnt.
+  Definition list_max (l : list T) : T := match l with [] => zero | a :: t => fold_left maxT t a end.
+  Definition sig_mean (st : list T * list T) : list T :=
+    map (fun sc => div O (fst sc) (snd sc)) (combine (fst st) (fix_sizes (snd st))).
+  (* [pw] is the power x |-> x ** signal_scale.  A vanishing maximum gives nan in numpy: an error value here (never generated) *)
+  Definition pixel_signals (pw : T -> T) (pixels : nat) (rows : list sig_row) (adapt : list T) : res (list T) :=
+    match res_all (map (sig_prep pixels adapt) rows) with
+    | Raise e => Raise e
+    | Ok prs =>
+        if Nat.eqb pixels 0 then Raise OtherException else               (* numpy.max of an empty array: ValueError *)
+        let s1 := sig_mean (fold_left sig_step prs (zeros pixels, zeros pixels)) in
+        let m := list_max s1 in
+        if eqb O m zero then Raise OtherException else Ok (map (fun s => pw (div O s m)) s1)
+    end.
+  Fixpoint npow (n : nat) (x : T) : T := match n with 0%nat => one | S k => mul O x (npow k x) end.
+  (* specification of the signals, independent of the update loops: pixel i collects, from every data sub-pixel whose used
+     vertex row contains it, (data value x interpolation weight), divided by the number of such sub-pixels (1 if none) *)
+  Definition sig_contrib (i : nat) (pr : list nat * list T) : T :=
+    sumT (map snd (filter (fun iv => Nat.eqb (fst iv) i) (combine (fst pr) (snd pr)))).
+  Definition sig_hit (i : nat) (pr : list nat * list T) : bool := existsb (Nat.eqb i) (fst pr).
+  Definition sig_count (prs : list (list nat * list T)) (i : nat) : nat := length (filter (sig_hit i) prs).
+  Definition raw_signal (prs : list (list nat * list T)) (i : nat) : T :=
+    div O (sumT (map (sig_contrib i) prs)) (if Nat.eqb (sig_count prs i) 0 then one else ofNat (sig_count prs i)).
+  Definition spec_signals (pw : T -> T) (pixels : nat) (prs : list (list nat * list T)) : list T :=
+    let raw := map (raw_signal prs) (seq 0 pixels) in
+    map (fun s => pw (div O s (list_max raw))) raw.
+
   (* ---------------- block-diagonal assembly ---------------- *)
   Definition width (M : mat) : nat := length (hd [] M).
   (* scipy.linalg.block_diag, by its contract *)
@@ -272,6 +357,17 @@ Section Model.
   Definition bil (x : list T) (M : mat) (y : list T) : T :=
     sumT (map (fun xr => mul O (fst xr) (dot (snd xr) y)) (combine x M)).
   Definition quad (M : mat) (x : list T) : T := bil x M x.
+  (* AbstractInversion.regularization_term:  s_r^T (H_r s_r)  (np.matmul twice) with  s_r = reconstruction_reduced =
+     numpy.delete(reconstruction, no_regularization_index_list),  H_r = regularization_matrix_reduced *)
+  Definition reg_term (objs : list (nat * option mat)) (x : list T) : T :=
+    quad (inversion_matrix_reduced objs) (delete_idx x (no_reg_indexes 0 objs)).
+  (* its specification: the sum over the REGULARIZED objects, in list order, of the quadratic form of the object's own matrix on
+     the object's slice of the reconstruction *)
+  Fixpoint term_blocks (objs : list (nat * option mat)) (x : list T) : T :=
+    match objs with
+    | [] => zero
+    | (p, r) :: t => add O (match r with Some H => quad H (firstn p x) | None => zero end) (term_blocks t (skipn p x))
+    end.
   Definition unit (n a : nat) : list T := map (fun i => if Nat.eqb i a then one else zero) (seq 0 n).
   Definition vadd (x y : list T) : list T := map (fun p => add O (fst p) (snd p)) (combine x y).
   (* entry (a, b) of the block-diagonal assembly: locate the blocks of a and b *)
@@ -293,6 +389,23 @@ Definition eps8 : Q := 1 # 100000000.
 Definition tol : Q := 1 # 100000000000.        (* 1e-11: double rounding of sums that include the 1e-8 ridge *)
 Definition close (a b : Q) : bool := Qle_bool (Qabs (a - b)) (tol * (1 + Qabs b)).
 Definition qv_close := list_eqb close.
+(* comparison relative to the SCALE of the entry: (a - b)^2 <= (1e-11)^2 * |H_aa| * |H_bb| (a positive semi-definite matrix has
+   |H_ab| <= sqrt (H_aa H_bb), and so have the rounding errors of the sums that make up its entries): a tiny row / column is
+   compared at its own scale, not at an absolute 1e-11 *)
+Definition tol2 : Q := 1 # 10000000000000000000000.
+Definition closeD (da db a b : Q) : bool :=
+  if Qeq_bool a b then true else Qle_bool ((a - b) * (a - b)) (tol2 * (Qabs da * Qabs db)).
+Definition closeR (a b : Q) : bool := if Qeq_bool a b then true else Qle_bool (Qabs (a - b)) (tol * Qabs b).
+Definition diagq (M : list (list Q)) : list Q := map (fun ir => nth (fst ir) (snd ir) 0) (indexed M).
+Definition qm_closeD_with (d : list Q) (M out : list (list Q)) : bool :=
+  Nat.eqb (length M) (length out) &&
+  forallb (fun x : Q * (list Q * list Q) =>
+             Nat.eqb (length (fst (snd x))) (length (snd (snd x))) &&
+             forallb (fun y : Q * (Q * Q) => closeD (fst x) (fst y) (fst (snd y)) (snd (snd y)))
+                     (combine d (combine (fst (snd x)) (snd (snd x)))))
+          (combine d (combine M out)).
+Definition qm_closeD (M out : list (list Q)) : bool := qm_closeD_with (diagq M) M out.
+Definition qv_closeR := list_eqb closeR.
 Definition qm_close := list_eqb qv_close.
 Definition qv_eqb := list_eqb Qeq_bool.
 Definition zl_eqb := list_eqb Z.eqb.
@@ -415,13 +528,14 @@ Definition prows_ok {A} (prows : list (list (nat * A))) : bool :=
   forallb (fun row => forallb (fun mw => (fst mw <? length prows / 4)%nat) row && nodupb (map fst row)) prows.
 Definition square (n : nat) (H : qm) : bool := Nat.eqb (length H) n && forallb (fun r => Nat.eqb (length r) n) H.
 Definition symmetric_close (n : nat) (H : qm) : bool :=
-  forallb (fun a => forallb (fun b => close (@mget QOps H a b) (@mget QOps H b a)) (seq 0 n)) (seq 0 n).
+  let d := diagq H in
+  forallb (fun a => forallb (fun b => closeD (nth a d 0) (nth b d 0) (@mget QOps H a b) (@mget QOps H b a)) (seq 0 n)) (seq 0 n).
 (* H is the symmetric matrix whose quadratic form is q:  H[a,a] = q(e_a),  H[a,b] = (q(e_a + e_b) - q(e_a) - q(e_b)) / 2 *)
 Definition matches_qf (q : qv -> Q) (n : nat) (H : qm) : bool :=
   let d := map (fun a => q (@unit QOps n a)) (seq 0 n) in
   forallb (fun a =>
-     close (@mget QOps H a a) (nth a d 0) &&
-     forallb (fun b => close (@mget QOps H a b)
+     closeR (@mget QOps H a a) (nth a d 0) &&
+     forallb (fun b => closeD (nth a d 0) (nth b d 0) (@mget QOps H a b)
                              (Qred ((q (@vadd QOps (@unit QOps n a) (@unit QOps n b)) - nth a d 0 - nth b d 0) / 2)))
              (seq (S a) (n - S a))) (seq 0 n).
 
@@ -436,7 +550,15 @@ Inductive case :=
 | KCovX (pts : list (Q * Q)) (tbl : list (Q * Q)) (vals : list Q) (idx : list (list Z))
                                                             (* the same observation as KCov for a large mesh, the returned matrix
                                                                written as indexes into the list of its distinct values *)
-| KAssembly (sz : list (nat * bool)) (blocks : list qm) (out outr : qm).
+| KAssembly (sz : list (nat * bool)) (blocks : list qm) (out outr : qm)
+| KTerm (sz : list (nat * bool)) (blocks : list qm) (x : qv) (out : Q)
+                                                            (* inversion.regularization_term = s_r^T H_reduced s_r, x = inversion.reconstruction *)
+| KDelNb (n : nat) (simplices : list (list nat)) (indptr indices : list nat) (out : list (list Z)) (outsz : list nat)
+                                                            (* Mesh2DDelaunay.neighbors (array, sizes) with delaunay.simplices and
+                                                               delaunay.vertex_neighbor_vertices *)
+| KSignals (pixels pw : nat) (rows : list (list Z * nat * qv * nat)) (adapt : qv) (out : res qv).
+                                                            (* mapper.pixel_signals_from(signal_scale = pw) /
+                                                               mapper_util.adaptive_pixel_signals_from *)
                                                             (* the assembly alone, for any scheme (kernel schemes included):
                                                                sz = (params, has a regularization) of each object in list order,
                                                                blocks = linear_obj.regularization_matrix of each object *)
@@ -463,11 +585,19 @@ Definition tbl_lookup (tbl : list (Q * Q)) (d2 : Q) : Q :=
   match find (fun kv => Qeq_bool (fst kv) d2) tbl with Some kv => snd kv | None => 0 end.
 Definition tol_inv : Q := 1 # 10000000.        (* 1e-7: numpy.linalg.inv on moderately conditioned covariance matrices *)
 Definition close_inv (a b : Q) : bool := Qle_bool (Qabs (a - b)) (tol_inv * (1 + Qabs b)).
+(* the inverse contract at the scale of the coefficient: |(C H)_ab - coef delta_ab| <= 1e-7 |coef| *)
+Definition close_invc (coef a b : Q) : bool := Qle_bool (Qabs (a - b)) (tol_inv * Qabs coef).
 Definition mat_mul_q (A B : qm) : qm :=
   let n := length B in
   map (fun r => map (fun j => @dot QOps r (map (fun rb => nth j rb 0) B)) (seq 0 (length (hd [] B)))) A.
 Definition scaled_identity (c : Q) (n : nat) : qm := map (fun a => map (fun b => if Nat.eqb a b then c else 0) (seq 0 n)) (seq 0 n).
 
+(* symmetry of the kernel schemes' matrix (a numerical inverse) relative to its diagonal: 1e-7 sqrt(H_aa H_bb) *)
+Definition symmetric_inv (n : nat) (H : qm) : bool :=
+  let d := diagq H in
+  forallb (fun a => forallb (fun b =>
+     let e := @mget QOps H a b - @mget QOps H b a in
+     Qle_bool (e * e) (tol_inv * tol_inv * (Qabs (nth a d 0) * Qabs (nth b d 0)))) (seq 0 n)) (seq 0 n).
 Definition qm_eqb := list_eqb qv_eqb.
 Definition assembly_objs (sz : list (nat * bool)) (blocks : list qm) : list (nat * option qm) :=
   map (fun sb : nat * bool * qm => (fst (fst sb), if snd (fst sb) then Some (snd sb) else None)) (combine sz blocks).
@@ -477,9 +607,9 @@ Definition assembled (n : nat) (blocks : list qm) (out : qm) : bool :=
   && forallb (fun a => forallb (fun b => Qeq_bool (@mget QOps out a b) (@block_entry QOps blocks a b)) (seq 0 n)) (seq 0 n).
 Definition all_zero (B : qm) : bool := forallb (forallb (Qeq_bool 0)) B.
 
-(* [close] with a shortcut for syntactically equal rationals (cross-multiplying 120-bit dyadic numbers 10^4 times is slow) *)
+(* [closeR] (RELATIVE 1e-11: a far pair's covariance of 1e-60 is compared at its own scale) with a shortcut for syntactically equal rationals (cross-multiplying 120-bit dyadic numbers 10^4 times is slow) *)
 Definition closef (a b : Q) : bool :=
-  if Z.eqb (Qnum a) (Qnum b) then (if Pos.eqb (Qden a) (Qden b) then true else close a b) else close a b.   (* vm_compute is call-by-value: no || *)
+  if Z.eqb (Qnum a) (Qnum b) then (if Pos.eqb (Qden a) (Qden b) then true else closeR a b) else closeR a b.   (* vm_compute is call-by-value: no || *)
 Definition qm_closef := list_eqb (list_eqb closef).
 Definition decode (vals : list Q) (idx : list (list Z)) : qm := map (map (fun i => nth (Z.to_nat i) vals 0)) idx.
 (* the covariance specification, row by row (no random access): entry (a, b) = ridge on the diagonal + profile value of the
@@ -495,28 +625,63 @@ Definition cov_spec (pts : list (Q * Q)) (tbl : list (Q * Q)) (out : qm) : bool 
               ((if Nat.eqb (fst apr) (fst bqv) then eps8 else 0) + tbl_lookup tbl (dist2q (fst (snd apr)) (fst (snd bqv)))))
         (indexed (combine pts (snd (snd apr))))) (indexed (combine pts out)).
 
+(* regularization_term: doubles; tolerance 1e-9 of the sum of the absolute values of the terms of the quadratic form *)
+Definition abs_quad (M : qm) (x : qv) : Q :=
+  @sumT QOps (map (fun xr => Qabs (fst xr) * @sumT QOps (map (fun my => Qabs (fst my) * Qabs (snd my)) (combine (snd xr) x))) (combine x M)).
+Definition tol_term : Q := 1 # 1000000000.
+Definition close_term (scale a b : Q) : bool := if Qeq_bool a b then true else Qle_bool (Qabs (a - b)) (tol_term * scale).
+(* specification: the sum over the REGULARIZED objects, in list order, of the quadratic form of the object's own matrix on the
+   object's slice of the reconstruction *)
+Fixpoint term_spec (szb : list (nat * bool * qm)) (x : qv) : Q * Q :=
+  match szb with
+  | [] => (0, 0)
+  | (p, regd, B) :: t =>
+      let r := term_spec t (skipn p x) in
+      if regd then (Qred (@quad QOps B (firstn p x) + fst r), Qred (abs_quad B (firstn p x) + snd r)) else r
+  end.
+(* Delaunay neighbour table as the schemes read it: the first sizes[k] entries of row k *)
+Definition used_rows (rows : list (list Z)) (sizes : list nat) : list (list nat) :=
+  map (fun rs => map Z.to_nat (firstn (snd rs) (fst rs))) (combine rows sizes).
+Definition sig_rows_prepared (pixels : nat) (rows : list (list Z * nat * qv * nat)) (adapt : qv) : res (list (list nat * qv)) :=
+  res_all (map (@sig_prep QOps pixels adapt) rows).
+(* inputs on which the property text speaks about the signals: a non-negative adapt image, non-negative interpolation weights,
+   every used row with distinct vertices, a positive maximum *)
+Definition sig_nonneg (rows : list (list Z * nat * qv * nat)) (adapt : qv) : bool :=
+  forallb (Qle_bool 0) adapt && forallb (fun r : list Z * nat * qv * nat => forallb (Qle_bool 0) (snd (fst r))) rows.
+
 Definition agree (k : case) : bool :=
   match k with
-  | KMatrix s o out => res_eqb qm_close (scheme_matrix s o) out
-  | KWeights s o out => qv_close (scheme_weights s o) out
+  | KMatrix s o out => res_eqb qm_closeD (scheme_matrix s o) out
+  | KWeights s o out => qv_closeR (scheme_weights s o) out
   | KSplit o out => res_eqb split_out_eqb
                       (match @reg_split QOps (split_width o) (split_rows o) with Ok r => Ok (split_out r) | Raise e => Raise e end) out
   | KInversion objs blocks out outr =>
       match model_objs objs with
-      | Some mo => qm_close (@inversion_matrix QOps mo) out && qm_close (@inversion_matrix_reduced QOps mo) outr
-                   && list_eqb qm_close (map (@obj_matrix QOps) mo) blocks
+      | Some mo => qm_closeD (@inversion_matrix QOps mo) out && qm_closeD (@inversion_matrix_reduced QOps mo) outr
+                   && list_eqb qm_closeD (map (@obj_matrix QOps) mo) blocks
       | None => false
       end
   | KRect H W out => list_eqb (list_eqb Z.eqb) (rect_neighbors H W) out
   | KCov pts tbl out => qm_closef (@cov_matrix QOps eps8 (tbl_lookup tbl) pts) out
   | KKernel coef cov out =>
       (* the only model of numpy.linalg.inv is its contract: cov * out = coef * I *)
-      list_eqb (list_eqb close_inv) (mat_mul_q cov out) (scaled_identity coef (length cov))
+      list_eqb (list_eqb (close_invc coef)) (mat_mul_q cov out) (scaled_identity coef (length cov))
   | KCovX pts tbl vals idx => qm_closef (@cov_matrix QOps eps8 (tbl_lookup tbl) pts) (decode vals idx)
   | KAssembly sz blocks out outr =>
       let mo := assembly_objs sz blocks in
       Nat.eqb (length sz) (length blocks)
       && qm_eqb (@inversion_matrix QOps mo) out && qm_eqb (@inversion_matrix_reduced QOps mo) outr
+  | KTerm sz blocks x out =>
+      let mo := assembly_objs sz blocks in
+      let Hr := @inversion_matrix_reduced QOps mo in
+      let xr := delete_idx x (@no_reg_indexes QOps 0 mo) in
+      Nat.eqb (length sz) (length blocks) && Nat.eqb (length x) (fold_left Nat.add (map fst sz) 0%nat)
+      && close_term (abs_quad Hr xr) (@reg_term QOps mo x) out
+  | KDelNb n simplices indptr indices out outsz =>
+      let m := del_neighbors n indptr indices in
+      list_eqb zl_eqb (fst m) out && list_eqb Nat.eqb (snd m) outsz
+  | KSignals pixels pw rows adapt out =>
+      res_eqb qv_closeR (@pixel_signals QOps (@npow QOps pw) pixels rows adapt) out
   end.
 
 (* the specification's verdict on what the implementation returned; never calls the loops of the model *)
@@ -573,8 +738,8 @@ Definition spec_ok (k : case) : bool :=
   | KKernel coef cov out =>
       let n := length cov in
       square n out
-      && forallb (fun a => forallb (fun b => close_inv (@mget QOps out a b) (@mget QOps out b a)) (seq 0 n)) (seq 0 n)
-      && list_eqb (list_eqb close_inv) (mat_mul_q out cov) (scaled_identity coef n)
+      && symmetric_inv n out
+      && list_eqb (list_eqb (close_invc coef)) (mat_mul_q out cov) (scaled_identity coef n)
   | KAssembly sz blocks out outr =>
       let n := fold_left Nat.add (map fst sz) 0%nat in
       let regd := map snd (filter (fun sb => snd (fst sb)) (combine sz blocks)) in
@@ -582,6 +747,32 @@ Definition spec_ok (k : case) : bool :=
       Nat.eqb (length sz) (length blocks)
       && assembled n blocks out && assembled nr regd outr
       && forallb (fun sb => square (fst (fst sb)) (snd sb) && (snd (fst sb) || all_zero (snd sb))) (combine sz blocks)
+  | KTerm sz blocks x out =>
+      let r := term_spec (combine sz blocks) x in
+      Nat.eqb (length sz) (length blocks) && close_term (snd r) (@term_blocks QOps (assembly_objs sz blocks) x) out
+  | KDelNb n simplices indptr indices out outsz =>
+      (* given scipy's contract: one row per vertex, in range, symmetric, and exactly the edges of the triangulation *)
+      if vnv_ok n simplices indptr indices then
+        let nb := used_rows out outsz in
+        Nat.eqb (length out) n && Nat.eqb (length outsz) n && in_range n out outsz && nb_ok nb
+        && forallb (fun i => forallb (fun j => Bool.eqb (memb j (nth i nb [])) (adjb simplices i j)) (seq 0 n)) (seq 0 n)
+        && forallb nodupn nb
+      else true
+  | KSignals pixels pw rows adapt out =>
+      match sig_rows_prepared pixels rows adapt with
+      | Ok prs =>
+          let raw := map (@raw_signal QOps prs) (seq 0 pixels) in
+          if (0 <? pixels)%nat && forallb (fun pr : list nat * qv => nodupn (fst pr)) prs && sig_nonneg rows adapt
+             && Qltb 0 (@list_max QOps raw) then
+            match out with
+            | Ok v => qv_closeR (@spec_signals QOps (@npow QOps pw) pixels prs) v
+                      && forallb (fun s => Qle_bool 0 s && Qle_bool s 1) v          (* signals lie in [0, 1] ... *)
+                      && existsb (fun s => Qeq_bool s 1) v                          (* ... and the brightest pixel has signal 1 *)
+            | Raise _ => false
+            end
+          else true
+      | Raise _ => true
+      end
   end.
 
 Definition check (k : case) : nat := verdict (agree k) (spec_ok k).
